@@ -119,12 +119,10 @@ impl WorldB {
     /// is every message covered by the caller's grants (subkeys, non-admin)? returns per-denom relayed vector
     fn covered(&self, pre: &Cw1Snap, sender: &str, msgs: &[CosmosMsg], block: &cosmwasm_std::BlockInfo) -> (bool, BTreeMap<String, u128>) {
         let mut sent: BTreeMap<String, u128> = BTreeMap::new();
-        let i = match self.idx(sender) {
-            Some(i) => i,
-            None => return (false, sent),
-        };
-        let (allow, exp) = pre.allow.get(i).cloned().unwrap_or_default();
-        let perms = pre.perms.get(i).cloned().unwrap_or_default();
+        // a caller outside the observed universe (e.g. the proxy calling itself) holds no grants at all;
+        // an empty message list is vacuously covered
+        let (allow, exp) = self.idx(sender).and_then(|i| pre.allow.get(i).cloned()).unwrap_or_default();
+        let perms = self.idx(sender).and_then(|i| pre.perms.get(i).cloned()).unwrap_or_default();
         let mut remaining: BTreeMap<String, u128> = allow.iter().map(|c| (c.denom.clone(), c.amount.u128())).collect();
         let unexpired = !expired(&exp, block);
         for m in msgs {
@@ -726,7 +724,8 @@ impl WorldB {
             .unwrap_or(50);
         match rng.below(24) {
             0..=7 => {
-                let n = rng.range(1, 3);
+                // 0 coins is an unusual but legal bank send
+                let n = if rng.chance(1, 10) { 0 } else { rng.range(1, 3) };
                 let mut amount: Vec<Coin> = (0..n).map(|_| self.gen_coin(rng, reference)).collect();
                 if rng.chance(1, 8) && !amount.is_empty() {
                     let d = amount[0].clone();
@@ -746,7 +745,21 @@ impl WorldB {
                 msg: Binary::from(format!("{{\"ping\":{}}}", rng.below(100)).into_bytes()),
                 funds: if rng.chance(1, 3) { vec![Coin::new(rng.range(1, 20) as u128, "ua")] } else { vec![] },
             }),
-            18 => CosmosMsg::Wasm(WasmMsg::UpdateAdmin { contract_addr: self.sinks[0].clone(), admin: to }),
+            18 => {
+                if rng.chance(1, 2) {
+                    CosmosMsg::Wasm(WasmMsg::UpdateAdmin { contract_addr: self.sinks[0].clone(), admin: to })
+                } else {
+                    // F6: the proxy is asked to call itself (or the other proxy)
+                    let target = if rng.chance(2, 3) { self.sk.clone() } else { self.wl.clone() };
+                    let inner = match rng.below(4) {
+                        0 => json!({"freeze":{}}),
+                        1 => json!({"update_admins":{"admins":[to.clone()]}}),
+                        2 => json!({"execute":{"msgs":[]}}),
+                        _ => json!({"update_admins":{"admins":[to.clone(), sender]}}),
+                    };
+                    CosmosMsg::Wasm(WasmMsg::Execute { contract_addr: target, msg: Binary::from(serde_json::to_vec(&inner).unwrap()), funds: vec![] })
+                }
+            }
             19 => CosmosMsg::Wasm(WasmMsg::ClearAdmin { contract_addr: self.sinks[0].clone() }),
             20 => CosmosMsg::Ibc(IbcMsg::Transfer {
                 channel_id: "channel-0".into(),
